@@ -1,6 +1,7 @@
 package props
 
 import (
+	"bytes"
 	"encoding/json"
 	"fmt"
 	"os"
@@ -25,6 +26,7 @@ type c17Case struct {
 	Minor   byte   `json:"minor"`
 	Version uint16 `json:"version"`
 	Kind    string `json:"transport"`
+	Extra   int    `json:"bytes_after_the_defined_fields,omitempty"` // the request packet is that much longer than its six defined bytes (its header says so): later protocol revisions may append fields
 	Split   int    `json:"request_split_at,omitempty"` // > 0: the 14-byte handshake request travels in two transport units, cut after this many bytes
 }
 
@@ -51,6 +53,9 @@ func genC17(t *rapid.T) c17Case {
 	}
 	if rapid.IntRange(0, 3).Draw(t, "split") == 0 {
 		c.Split = rapid.IntRange(1, 13).Draw(t, "splitAt")
+	}
+	if rapid.IntRange(0, 4).Draw(t, "extra") == 0 {
+		c.Extra = rapid.SampledFrom([]int{1, 2, 4, 26, 500}).Draw(t, "extraBytes")
 	}
 	return c
 }
@@ -117,8 +122,13 @@ func checkC17(c c17Case, r sess.Result) *Violation {
 }
 
 func c17Units(c c17Case) [][]byte {
+	hs := tsgu.Handshake(c.Major, c.Minor, c.Version, c.Caps)
+	if c.Extra > 0 {
+		body := append(append([]byte{}, hs[8:]...), bytes.Repeat([]byte{0xEE}, c.Extra)...)
+		hs = tsgu.Packet(tsgu.PktHandshakeRequest, body)
+	}
 	u := [][]byte{
-		tsgu.Handshake(c.Major, c.Minor, c.Version, c.Caps),
+		hs,
 		tsgu.TunnelCreate("", false),
 		tsgu.Handshake(0, 0, 0, c.Caps), // terminator: refused in every phase but the first
 	}
